@@ -76,7 +76,7 @@ package ios
 
 // one reply is read and checked: banner removed, echo stripped, remainder empty or acceptable
 //vc:func (*State).cmd$1
-//vc:  ensures[C09] @replyCheckedValid lastRemainder == "" || validOut(ci, lastRemainder)
+//vc:  ensures[C09,C15] @replyCheckedValid lastRemainder == "" || validOut(ci, lastRemainder)
 //vc:  ensures[C15] @oneMinuteWarningRemembered (oneMinuteSeen ==> old(oneMinuteSeen) || needReload) && (old(needReload) ==> needReload)
 
 //vc:func (*State).writeMem
